@@ -182,3 +182,14 @@ func ObjR[T any](p *T, pos string) *T {
 	}
 	return p
 }
+
+// SliceA wraps the first operand of append(): a write to the backing array of s (identified by
+// its first element; an empty slice with spare capacity is identified by the start of that capacity).
+func SliceA[S ~[]E, E any](s S, pos string) S {
+	if X != nil && X.cfg.Race && cap(s) > 0 {
+		Accesses++
+		full := s[:cap(s)]
+		X.access(unsafe.Pointer(&full[0]), pos, true)
+	}
+	return s
+}
